@@ -39,6 +39,8 @@ pub fn meta(tier: Tier) -> Meta {
             "tree_blocks_all_valid": if tier.is_thorough() { 5 } else { 4 },
             "invalid_kinds": ["Dao(contextual)", "TwoCellbases(non-contextual)", "Unproposed(contextual)"],
             "duplicate_patterns": 3,
+            "family_D": "dynamic-difficulty world, branches A (fast, 4x per-block difficulty in epoch 1) and B (slow): every topological interleaving of (a_len, b_len) in the listed shapes, plus B delivered in reverse (held as orphans)",
+            "family_D_shapes": if tier.is_thorough() { json!([[3,8],[3,9],[4,8],[2,6]]) } else { json!([[3,8]]) },
         }),
     }
 }
@@ -114,20 +116,7 @@ fn td(node: &Node) -> U256 {
 }
 
 fn run_case(ctx: &Ctx, u: &mut TreeUniverse, case: &Case, idx: u64) -> Result<Report, String> {
-    let mut report = Report::new();
     let m = materialise(u, case)?;
-    let n = m.blocks.len();
-    let genesis_hash = u.consensus.genesis_hash();
-    let dir = ctx.scratch.join("run");
-    let _ = std::fs::remove_dir_all(&dir);
-    set_time(time_for_height(12));
-    let node = Node::boot(&dir, &NodeOpts::new(u.consensus.clone()))?;
-    node.wait_startup()?;
-    let genesis_td = td(&node);
-
-    // reference bookkeeping
-    let by_hash: HashMap<packed::Byte32, usize> = m.blocks.iter().enumerate().map(|(i, b)| (b.hash(), i)).collect();
-    let mut delivered: BTreeSet<usize> = BTreeSet::new();
     let mut seq: Vec<usize> = vec![];
     match case.dup {
         0 => seq.extend(case.perm.iter().cloned()),
@@ -142,24 +131,42 @@ fn run_case(ctx: &Ctx, u: &mut TreeUniverse, case: &Case, idx: u64) -> Result<Re
             seq.extend(case.perm.iter().cloned());
         }
     }
+    let cons = u.consensus.clone();
+    run_scenario(ctx, &cons, &m, &case.pv, &seq, case.dup == 1, "A", &json!({"family": "A", "case": case}), fp(case), idx)
+}
+
+/// Deliver `seq` (indexes into m.blocks) to a fresh node and judge every quiescent point.
+#[allow(clippy::too_many_arguments)]
+fn run_scenario(ctx: &Ctx, cons: &ckb_chain_spec::consensus::Consensus, m: &Materialised, pv: &[usize], seq: &[usize], burst2: bool, fam: &str, label: &Value, case_fp: u64, idx: u64) -> Result<Report, String> {
+    let mut report = Report::new();
+    let n = m.blocks.len();
+    let genesis_hash = cons.genesis_hash();
+    let dir = ctx.scratch.join("run");
+    let _ = std::fs::remove_dir_all(&dir);
+    set_time(time_for_height(12));
+    let node = Node::boot(&dir, &NodeOpts::new(cons.clone()))?;
+    node.wait_startup()?;
+    let genesis_td = td(&node);
+
+    // reference bookkeeping
+    let by_hash: HashMap<packed::Byte32, usize> = m.blocks.iter().enumerate().map(|(i, b)| (b.hash(), i)).collect();
+    let mut delivered: BTreeSet<usize> = BTreeSet::new();
     let mut prev_tip = genesis_hash.clone();
     let mut prev_td = genesis_td.clone();
     let mut saw_orphan = false;
     let mut saw_reorg = false;
     let mut adopted: Vec<packed::Byte32> = vec![];
     let viol = |report: &mut Report, kind: &str, msg: String, step: usize| {
-        report.violation(
-            format!("A/{kind}"),
-            format!("{msg} (case #{idx}, step {step})"),
-            json!({"family": "A", "case": case, "step": step}),
-        );
+        let mut l = label.clone();
+        l["step"] = json!(step);
+        report.violation(format!("{fam}/{kind}"), format!("{msg} (case #{idx}, step {step})"), l);
     };
 
     let mut step = 0usize;
     let mut k = 0usize;
     while k < seq.len() {
         // dup==1: the two copies are delivered back-to-back before quiescence
-        let burst = if case.dup == 1 { 2 } else { 1 };
+        let burst = if burst2 { 2 } else { 1 };
         for j in 0..burst {
             node.deliver(&m.blocks[seq[k + j]]);
             report.transitions += 1;
@@ -179,7 +186,7 @@ fn run_case(ctx: &Ctx, u: &mut TreeUniverse, case: &Case, idx: u64) -> Result<Re
                 if !delivered.contains(&(cur - 1)) || !m.self_valid[cur - 1] {
                     return false;
                 }
-                cur = case.pv[cur - 1];
+                cur = pv[cur - 1];
             }
         };
         let depth_td = |i: usize| -> U256 {
@@ -187,7 +194,7 @@ fn run_case(ctx: &Ctx, u: &mut TreeUniverse, case: &Case, idx: u64) -> Result<Re
             let mut cur = i + 1;
             while cur != 0 {
                 acc = acc + m.blocks[cur - 1].difficulty();
-                cur = case.pv[cur - 1];
+                cur = pv[cur - 1];
             }
             acc
         };
@@ -238,7 +245,16 @@ fn run_case(ctx: &Ctx, u: &mut TreeUniverse, case: &Case, idx: u64) -> Result<Re
             let mut cur = tip.clone();
             while cur != genesis_hash {
                 match snap.get_block_ext(&cur) {
-                    Some(ext) if ext.verified == Some(true) => {}
+                    Some(ext) if ext.verified == Some(true) => {
+                        // the accumulated difficulty recorded for a main-chain block is what later
+                        // fork choices compare against
+                        if let Some(i) = by_hash.get(&cur) {
+                            let want = depth_td(*i);
+                            if ext.total_difficulty != want {
+                                viol(&mut report, "recorded-total-difficulty-wrong", format!("main-chain block #{} records total difficulty {:#x}, the chain up to it has {:#x}", i + 1, ext.total_difficulty, want), step);
+                            }
+                        }
+                    }
                     other => viol(&mut report, "main-chain-block-not-verified", format!("main-chain block {cur} has ext {:?}", other.map(|e| e.verified)), step),
                 }
                 cur = snap.get_block_header(&cur).map(|h| h.parent_hash()).unwrap_or(genesis_hash.clone());
@@ -283,20 +299,20 @@ fn run_case(ctx: &Ctx, u: &mut TreeUniverse, case: &Case, idx: u64) -> Result<Re
             }
         }
         let tip_idx = by_hash.get(&tip).map(|i| *i as i64).unwrap_or(-1);
-        report.states.insert(fp(&(&case.pv, &case.bad, &delivered, tip_idx, &orphans)));
+        report.states.insert(fp(&(case_fp, &delivered, tip_idx, &orphans)));
         report.outcomes.insert(fp(&(tip_idx, delivered.len(), orphans.len())));
     }
     report.traces += 1;
     report.evaluations += 1;
     let has_fork = {
         let mut cnt: BTreeMap<usize, usize> = BTreeMap::new();
-        for p in &case.pv {
+        for p in pv {
             *cnt.entry(*p).or_insert(0) += 1;
         }
         cnt.values().any(|c| *c > 1)
     };
     if has_fork && (saw_orphan || saw_reorg) {
-        report.nontrivial.insert(fp(case));
+        report.nontrivial.insert(fp(&(case_fp, seq)));
     }
     if saw_reorg {
         report.count("runs_with_reorg", 1);
@@ -305,10 +321,167 @@ fn run_case(ctx: &Ctx, u: &mut TreeUniverse, case: &Case, idx: u64) -> Result<Re
         report.count("runs_with_orphan_held", 1);
     }
     if idx % 997 == 0 {
-        report.sample(json!({"case": case, "adopted_tips": adopted.iter().map(|h| by_hash.get(h).map(|i| i + 1)).collect::<Vec<_>>() }));
+        report.sample(json!({"case": label, "sequence": seq, "adopted_tips": adopted.iter().map(|h| by_hash.get(h).map(|i| i + 1)).collect::<Vec<_>>() }));
     }
     node.shutdown();
     Ok(report)
+}
+
+
+// ---------------------------------------------------------------------------------------
+// Family D: uneven per-block difficulty.  Dynamic-difficulty world with a 4-block genesis
+// epoch; two branches fork inside epoch 0 with fast (A) and slow (B) timestamps, so that epoch 1
+// gives A four times B's per-block difficulty: B can be several blocks *longer and lighter*.
+
+#[derive(Clone, Debug, Serialize, Deserialize, PartialEq, Eq, Hash)]
+pub struct DynCase {
+    pub a_len: usize,
+    pub b_len: usize,
+    /// delivery order: true = next block of A, false = next block of B
+    pub order: Vec<bool>,
+    /// deliver branch B's blocks in reverse (children before parents: all held as orphans until
+    /// the first one arrives)
+    pub b_reversed: bool,
+}
+
+pub fn dyn_world() -> ckb_chain_spec::consensus::Consensus {
+    let opts = WorldOpts {
+        permanent_difficulty: false,
+        genesis_compact_target: ckb_types::utilities::difficulty_to_compact(U256::from(1u64 << 24)),
+        ..Default::default()
+    };
+    consensus(&opts)
+}
+
+struct DynUniverse {
+    a: Vec<BlockView>,
+    b: Vec<BlockView>,
+}
+
+fn build_dyn(ctx: &Ctx, cons: &ckb_chain_spec::consensus::Consensus, a_len: usize, b_len: usize) -> Result<DynUniverse, String> {
+    use crate::forge::*;
+    let mut forge = Forge::new(&ctx.scratch.join("forge-dyn"), cons)?;
+    // common block 1, then A: heights 2.. with 1 s spacing, B: heights 2.. with 40 s spacing
+    let b1 = forge.build_on(&cons.genesis_hash(), &BlockSpec { timestamp: Some(BASE_TIME + 8_000), miner: 1, ..Default::default() })?;
+    let mut out = DynUniverse { a: vec![], b: vec![] };
+    for (len, spacing, miner, is_a) in [(a_len, 1_000u64, 2u8, true), (b_len, 40_000u64, 3u8, false)] {
+        let mut parent = b1.hash();
+        let mut ts = BASE_TIME + 8_000;
+        for _ in 0..len {
+            ts += spacing;
+            let b = forge.build_on(&parent, &BlockSpec { timestamp: Some(ts), miner, ..Default::default() })?;
+            parent = b.hash();
+            if is_a { out.a.push(b) } else { out.b.push(b) }
+        }
+        // full verification of the branch head as a tip
+        forge.goto(&parent)?;
+    }
+    out.a.insert(0, b1);
+    Ok(out)
+}
+
+fn orders(na: usize, nb: usize) -> Vec<Vec<bool>> {
+    fn rec(i: usize, j: usize, na: usize, nb: usize, cur: &mut Vec<bool>, out: &mut Vec<Vec<bool>>) {
+        if i == na && j == nb {
+            out.push(cur.clone());
+            return;
+        }
+        if i < na {
+            cur.push(true);
+            rec(i + 1, j, na, nb, cur, out);
+            cur.pop();
+        }
+        if j < nb {
+            cur.push(false);
+            rec(i, j + 1, na, nb, cur, out);
+            cur.pop();
+        }
+    }
+    let mut out = vec![];
+    rec(0, 0, na, nb, &mut vec![], &mut out);
+    out
+}
+
+fn dyn_cases(tier: Tier) -> Vec<DynCase> {
+    // (a_len counts blocks after the common block 1)
+    let shapes: &[(usize, usize)] = if tier.is_thorough() { &[(3, 8), (3, 9), (4, 8), (2, 6)] } else { &[(3, 8)] };
+    let mut out = vec![];
+    for &(a_len, b_len) in shapes {
+        for order in orders(a_len, b_len) {
+            for b_reversed in [false, true] {
+                if b_reversed && !tier.is_thorough() && order.iter().take(a_len).any(|x| !*x) {
+                    // quick: the reversed variant only for "all of A first"
+                    continue;
+                }
+                out.push(DynCase { a_len, b_len, order: order.clone(), b_reversed });
+            }
+        }
+    }
+    out
+}
+
+fn run_dyn(ctx: &Ctx, report: &mut Report, only: Option<DynCase>) {
+    let cons = dyn_world();
+    let cases = match only {
+        Some(c) => vec![c],
+        None => dyn_cases(ctx.tier),
+    };
+    let mut built: std::collections::HashMap<(usize, usize), DynUniverse> = std::collections::HashMap::new();
+    for (idx, case) in cases.iter().enumerate() {
+        if !ctx.mine(idx as u64) {
+            continue;
+        }
+        if ctx.out_of_time() {
+            report.cap_hit = Some(format!("wall budget reached in family D at case {idx} of {}", cases.len()));
+            return;
+        }
+        if !built.contains_key(&(case.a_len, case.b_len)) {
+            match build_dyn(ctx, &cons, case.a_len, case.b_len) {
+                Ok(u) => {
+                    built.insert((case.a_len, case.b_len), u);
+                }
+                Err(e) => {
+                    report.machinery_errors.push(format!("family D universe: {e}"));
+                    return;
+                }
+            }
+        }
+        let u = &built[&(case.a_len, case.b_len)];
+        // scenario: blocks = [b1, a.., b..]; parent vector 1-based
+        let mut blocks = u.a.clone();
+        let na = blocks.len();
+        blocks.extend(u.b.iter().cloned());
+        let mut pv = vec![0usize];
+        for i in 1..na {
+            pv.push(i);
+        }
+        for j in 0..u.b.len() {
+            pv.push(if j == 0 { 1 } else { na + j });
+        }
+        let m = Materialised { self_valid: vec![true; blocks.len()], blocks };
+        let mut seq = vec![0usize];
+        let (mut i, mut j) = (1usize, 0usize);
+        for &is_a in &case.order {
+            if is_a {
+                seq.push(i);
+                i += 1;
+            } else {
+                let k = if case.b_reversed { u.b.len() - 1 - j } else { j };
+                seq.push(na + k);
+                j += 1;
+            }
+        }
+        let difficulties: Vec<String> = m.blocks.iter().map(|b| format!("{:#x}", b.difficulty())).collect();
+        let label = json!({"family": "D", "case": case, "per_block_difficulty": difficulties});
+        match run_scenario(ctx, &cons, &m, &pv, &seq, false, "D", &label, fp(case), idx as u64 * 997) {
+            Ok(r) => report.merge(r),
+            Err(e) => {
+                report.machinery_errors.push(format!("family D case #{idx} {case:?}: {e}"));
+                return;
+            }
+        }
+        report.count("family_D_runs", 1);
+    }
 }
 
 fn needed_keys(cases: &[Case]) -> BTreeSet<Key> {
@@ -334,6 +507,13 @@ pub fn run(ctx: &Ctx) -> Report {
     };
     if let Some(path) = &ctx.replay {
         let v: Value = load_replay_case(path);
+        if v["family"] == "D" {
+            let case: DynCase = serde_json::from_value(v["case"].clone()).expect("case");
+            run_dyn(ctx, &mut report, Some(case));
+            report.outcomes.insert(0);
+            report.outcomes.insert(1);
+            return report;
+        }
         let case: Case = serde_json::from_value(v["case"].clone()).expect("case");
         let keys = needed_keys(std::slice::from_ref(&case));
         if let Err(e) = u.build_all(&keys) {
@@ -373,5 +553,9 @@ pub fn run(ctx: &Ctx) -> Report {
         }
     }
     report.count("forge_audits", u.audited);
+    drop(u);
+    if report.machinery_errors.is_empty() && report.cap_hit.is_none() {
+        run_dyn(ctx, &mut report, None);
+    }
     report
 }
